@@ -24,7 +24,10 @@ META = dict(
          "mock every transition of its state graph to depth 6 (two partitions + an unexpected one, yields of messages/errors, "
          "drain expectations, every close order, high-water marks) plus all paths to depth 3, two topics x two partitions with "
          "the complete Consumer.HighWaterMarks() map compared after every step, SetTopicMetadata/Topics/Partitions sequences, and "
-         "messages whose partitioning fails (SendMessage, SendMessages, async input: the message still uses up its expectation). Each behaviour is executed on the "
+         "messages whose partitioning fails (SendMessage, SendMessages, async input: the message still uses up its expectation). "
+         "The AsyncClose-then-drain shutdown of the async mock is an op of its own (every report due must have been made when "
+         "Successes()/Errors() are observed closed; the reporter is slowed so the order is observable), and the consumer mock is "
+         "also fed from a goroutine through 0/1/2 buffer slots with the high-water marks read while the feeder is blocked. Each behaviour is executed on the "
          "real mocks with a recording ErrorReporter; TLC checks per message: outcome of the i-th expectation, exactly one outcome, "
          "increasing offsets, partition choice, and at every step of the scripted run the exact number of ErrorReporter calls "
          "the situation calls for (with their structured arguments).",
@@ -37,18 +40,20 @@ META = dict(
 )
 
 QUICK = dict(
-    prod=[("Mocks.fifo.cfg", "fifo"), ("Mocks.inter.cfg", "interleaved"), ("Mocks.part.cfg", "partitioner"), ("Mocks.topics.cfg", "topic_config"), ("Mocks.perr.cfg", "partitioner_error"), ("Mocks.rets.cfg", "return_successes_off")],
+    prod=[("Mocks.fifo.cfg", "fifo"), ("Mocks.inter.cfg", "interleaved"), ("Mocks.part.cfg", "partitioner"), ("Mocks.topics.cfg", "topic_config"), ("Mocks.perr.cfg", "partitioner_error"), ("Mocks.aclose.cfg", "async_close_drain"), ("Mocks.rets.cfg", "return_successes_off")],
     cons=[("MocksCons.edges.cfg", "consumer_edges", 1), ("MocksCons.paths.cfg", "consumer_paths", 4),
-          ("MocksCons.topics.cfg", "consumer_topics", 1), ("MocksCons.meta.cfg", "consumer_metadata", 2)],
+          ("MocksCons.topics.cfg", "consumer_topics", 1), ("MocksCons.meta.cfg", "consumer_metadata", 2),
+          ("MocksCons.feed.cfg", "consumer_feeder", 1)],
 )
 THOROUGH = dict(
-    prod=[("Mocks.fifobig.cfg", "fifo"), ("Mocks.interbig.cfg", "interleaved"), ("Mocks.partbig.cfg", "partitioner"), ("Mocks.topicsbig.cfg", "topic_config"), ("Mocks.perr.cfg", "partitioner_error"), ("Mocks.rets.cfg", "return_successes_off")],
+    prod=[("Mocks.fifobig.cfg", "fifo"), ("Mocks.interbig.cfg", "interleaved"), ("Mocks.partbig.cfg", "partitioner"), ("Mocks.topicsbig.cfg", "topic_config"), ("Mocks.perr.cfg", "partitioner_error"), ("Mocks.aclose.cfg", "async_close_drain"), ("Mocks.rets.cfg", "return_successes_off")],
     cons=[("MocksCons.edgesbig.cfg", "consumer_edges", 1), ("MocksCons.pathsbig.cfg", "consumer_paths", 4),
-          ("MocksCons.topicsbig.cfg", "consumer_topics", 1), ("MocksCons.metabig.cfg", "consumer_metadata", 2)],
+          ("MocksCons.topicsbig.cfg", "consumer_topics", 1), ("MocksCons.metabig.cfg", "consumer_metadata", 2),
+          ("MocksCons.feed.cfg", "consumer_feeder", 1)],
 )
 
 CLAUSES = {"fifo_outcome", "exactly_one_outcome", "unexpected_input_outcome", "offsets_increasing", "partition_choice",
-           "sync_return_partition", "checker_called", "deviation_not_reported", "unexpected_report", "report_arguments", "consume_result", "metadata_result",
+           "sync_return_partition", "checker_called", "deviation_not_reported", "unexpected_report", "report_arguments", "report_after_completion", "consume_result", "metadata_result",
            "yield_order", "consecutive_offsets", "message_partition", "error_order", "high_water_mark", "no_hang_or_panic"}
 
 
@@ -169,7 +174,7 @@ def features(trace_events, v):
         f["outs"] = ev.get("outs")
         f["rep"] = ev.get("rep")
     else:
-        f.update({k: ev.get(k) for k in ("ret", "after", "rep", "reptxt", "err", "outs", "n") if k in ev})
+        f.update({k: ev.get(k) for k in ("ret", "after", "rep", "reptxt", "late", "how", "err", "outs", "n") if k in ev})
         f["reports"] = [r for e in evs for r in e.get("rep", [])]
         f["ops"] = [e["ev"] for e in evs[1:]]
     return f
